@@ -226,6 +226,8 @@ func (e *Exec) patternIntrinsicHarness(fn *ssa.Function, name string) Intrinsic 
 				e.Merge = val != 0
 			case "branch_timeout_ms":
 				e.BranchTimeoutMs = val
+			case "branch_slice_hops":
+				e.BranchSliceHops = val
 			case "lazy":
 				e.Lazy = val != 0
 			case "bitlen_dense":
